@@ -18,6 +18,7 @@ const modPath = "github.com/hashicorp/go-plugin"
 
 // Prog is the loaded, type-checked program of the working tree (engine E1).
 type Prog struct {
+	fieldsFlattened bool
 	fieldNames map[*types.Var]string
 	Dir        string
 	Fset       *token.FileSet
@@ -443,7 +444,22 @@ func (p *Prog) FieldObj(pkgPath, typeName, field string) *types.Var {
 			return st.Field(i)
 		}
 	}
-	return nil
+	// renamed, or grouped into a new sub-struct: look the canonical name up
+	canon := typeName + "." + field
+	if pkgPath != modPath {
+		canon = filepath.Base(pkgPath) + "." + canon
+	}
+	p.FieldName(st.Field(0)) // make sure the tables are built
+	var found *types.Var
+	for fv, n := range p.fieldNames {
+		if n == canon && fv.Name() != "" {
+			if found != nil && found != fv {
+				return nil
+			}
+			found = fv
+		}
+	}
+	return found
 }
 
 // SelField returns the field object selected by a selector expression, or nil.
@@ -516,6 +532,97 @@ func (p *Prog) FieldName(v *types.Var) string {
 						}
 					}
 					p.fieldNames[f] = owner + "." + name
+				}
+			}
+		}
+	}
+	if !p.fieldsFlattened {
+		p.fieldsFlattened = true
+		flatTaken := map[string]bool{}
+		flatLeft := map[string][]*types.Var{}
+		flatHave := map[string]map[string]bool{}
+		// A struct type the reference tree does not have, used as the type of
+		// exactly one (new) field of a known struct, is a grouping of that
+		// struct's own fields: its fields are named as fields of the owner when
+		// the owner is missing a reference field of that name and type.
+		for _, sp := range scopePkgs {
+			pk := p.Pkgs[sp]
+			if pk == nil {
+				continue
+			}
+			pre := ""
+			if sp != modPath {
+				pre = filepath.Base(sp) + "."
+			}
+			sc := pk.Types.Scope()
+			for _, n := range sc.Names() {
+				tn, ok := sc.Lookup(n).(*types.TypeName)
+				if !ok {
+					continue
+				}
+				st, ok := tn.Type().Underlying().(*types.Struct)
+				if !ok || knownFields[pre+p.typeName(tn)] != nil {
+					continue
+				}
+				// owners: known structs with a field of type T / *T
+				var owners []string
+				var ownerStructs []*types.Struct
+				for _, n2 := range sc.Names() {
+					tn2, ok := sc.Lookup(n2).(*types.TypeName)
+					if !ok {
+						continue
+					}
+					st2, ok := tn2.Type().Underlying().(*types.Struct)
+					oname := pre + p.typeName(tn2)
+					if !ok || knownFields[oname] == nil {
+						continue
+					}
+					for i := 0; i < st2.NumFields(); i++ {
+						ft := st2.Field(i).Type()
+						if pt, isP := ft.(*types.Pointer); isP {
+							ft = pt.Elem()
+						}
+						if types.Identical(ft, tn.Type()) {
+							owners = append(owners, oname)
+							ownerStructs = append(ownerStructs, st2)
+						}
+					}
+				}
+				if len(owners) != 1 {
+					continue
+				}
+				ref := knownFields[owners[0]]
+				have := map[string]bool{}
+				for i := 0; i < ownerStructs[0].NumFields(); i++ {
+					have[ownerStructs[0].Field(i).Name()] = true
+				}
+				for i := 0; i < st.NumFields(); i++ {
+					f := st.Field(i)
+					if rt, ok := ref[f.Name()]; ok && !have[f.Name()] && rt == fieldTypeString(f.Type()) {
+						p.fieldNames[f] = owners[0] + "." + f.Name()
+						flatTaken[owners[0]+"."+f.Name()] = true
+					} else {
+						flatLeft[owners[0]] = append(flatLeft[owners[0]], f)
+					}
+				}
+				flatHave[owners[0]] = have
+			}
+		}
+		// grouped *and* renamed: a leftover sub-struct field takes the only
+		// still-missing reference field of its type
+		for owner, fs := range flatLeft {
+			ref := knownFields[owner]
+			for _, f := range fs {
+				ts := fieldTypeString(f.Type())
+				var cands []string
+				for rn, rt := range ref {
+					if rt == ts && !flatHave[owner][rn] && !flatTaken[owner+"."+rn] {
+						cands = append(cands, rn)
+					}
+				}
+				if len(cands) == 1 {
+					p.fieldNames[f] = owner + "." + cands[0]
+					flatTaken[owner+"."+cands[0]] = true
 				}
 			}
 		}
